@@ -25,6 +25,7 @@ RULE = ("seeded sampling over group {legvec (+abscissa spy), poly (exact rationa
         "inf (closed form on infinite ranges), tuple (component-wise reference rule)} x n x interval x limit form x dtype x integrand style "
         "{tensor constants, pure python arithmetic / torch functions of x}; non-trivial = the call returned, the expected integral is non-zero "
         "(or, for legvec, the degree-2n entry of the reference rule is >= 0.03*|xu-xl|) and every comparison of the case was evaluated")
+RULE += ('; group extra (vf/c12_extra.py): limits of another dtype than the integrand (float32 / int64 / int32 tensors, python ints), integrands returning a tensor they do not own')
 MIN_NONTRIVIAL = {"quick": 700, "thorough": 9000}
 ASSUMPTIONS = [
     "finite intervals: length 1e-3..1e3, max(|xl|,|xu|)/|xu-xl| <= 30 (float64) / <= 1 (float32), xl != xu",
